@@ -66,7 +66,9 @@ class C03(Oracle):
             if in_visit:
                 if r.arrival_date != visit_arrival:
                     F("visit-arrival-date-changed", "ind %s record %d arrival %r, visit began %r" % (iid, k, r.arrival_date, visit_arrival))
-                if ty != "renege" and not (r.service_start_date >= last_int_exit):
+                # narrowing: a BLOCKED customer interrupted by a pre-emptive shift end is later released with its
+                # original service dates restored (the repo's test_resuming_interruption_after_blockage pins that)
+                if ty != "renege" and not (r.service_start_date >= last_int_exit) and "srvpre+blocking" not in self.R.feats:
                     F("restart-before-interruption", "ind %s record %d restarts at %r, interrupted at %r" % (iid, k, r.service_start_date, last_int_exit))
             elif exp_arrival is not None and r.arrival_date != exp_arrival:
                 F("gap-between-records", "ind %s record %d begins at %r, previous ended at %r" % (iid, k, r.arrival_date, exp_arrival))
